@@ -50,6 +50,15 @@ def run(tier, seed, res, lean):
     for b in memo_bad[:3]:
         res.violations.append(Violation('c03-mapping-recomputed', b['problems'][0][:300], {'suite': 'S-REL', **b}))
     res.coverage['mapping_cases'] = sum(o[0]['cases'] for o in rel_outs)
+    # upstream of a cache hit nothing runs: column caches (RAM table, then disk shard; same and rebuilt pipeline object)
+    from .. import suite_lru, paths
+    import os
+    os.makedirs(paths.SCRATCH, exist_ok=True)
+    col_outs = pmap(suite_lru.run_columns_shard, [(seed * 6151 + i + 11, 3 if tier == 'quick' else 12) for i in range(shards)])
+    col_bad = [b for o in col_outs for b in o[1] if 'executed' in b['msg']]
+    for b in col_bad[:3]:
+        res.violations.append(Violation('c03-cache-hit-executes', b['msg'][:300], {'suite': 'S-COL', **b}))
+    res.coverage['column_cases'] = sum(o[0]['column_cases'] for o in col_outs)
     res.coverage.update({
         'evaluations': stats['calls'], 'distinct_nontrivial': stats['nontrivial'], 'rule': RULE,
         'programs': stats['cases'], 'disagreements_checked': len(bad), 'samples': [outs[0][3]],
@@ -58,7 +67,7 @@ def run(tier, seed, res, lean):
 
 
 def replay(obj, kind):
-    if obj.get('suite') == 'S-REL':
+    if obj.get('suite') in ('S-REL', 'S-COL'):
         return True, 'dataset pipelines are replayed by re-running the check with the same VERIF_SEED'
     from ..real_vm import RealVM
     case, steps = obj['case'], obj['steps']
